@@ -119,7 +119,6 @@ Repeat(s, n) == IF n = 0 THEN <<>> ELSE s \o Repeat(s, n - 1)
 IsCtl(c) == c < 32 \/ (c >= 127 /\ c <= 159)               \* Rust char::is_control (category Cc)
 HexDigit(d) == IF d < 10 THEN 48 + d ELSE 87 + d
 Hex4Cps(n) == <<HexDigit(n \div 4096), HexDigit((n \div 256) % 16), HexDigit((n \div 16) % 16), HexDigit(n % 16)>>
-Dec4Cps(n) == <<48 + ((n \div 1000) % 10), 48 + ((n \div 100) % 10), 48 + ((n \div 10) % 10), 48 + (n % 10)>>
 
 \* ---- reference printers ---------------------------------------------------------------------------
 RefChar(c) == CASE c = cQ -> <<cBS, cQ>> [] c = cBS -> <<cBS, cBS>> [] c = cLF -> <<cBS, 110>> [] c = cCR -> <<cBS, 114>>
@@ -153,10 +152,11 @@ DescDev(s, tabs, preferSingleLine) ==
   ELSE Q3 \o <<cLF>> \o tabs \o ReIndent(s, tabs) \o <<cLF>> \o tabs \o Q3
 \* export_sdl.rs: @specifiedBy(url: "...") with replace('"', "\\\"")
 SpecifiedByDev(s) == <<cQ>> \o MapCat(QuoteOnlyChar, s, 1) \o <<cQ>>
-\* value/src/lib.rs write_quoted (default values): control characters as \u + DECIMAL digits
+\* value/src/lib.rs write_quoted (default values): control characters as \u + four hexadecimal digits
+\* (the decimal digits it used to write were repaired by /repo commit 773af2b; no deviation is left here)
 ValueChar(c) == CASE c = cCR -> <<cBS, 114>> [] c = cLF -> <<cBS, 110>> [] c = cTAB -> <<cBS, 116>> [] c = cQ -> <<cBS, cQ>>
-                  [] c = cBS -> <<cBS, cBS>> [] OTHER -> IF IsCtl(c) THEN <<cBS, 117>> \o Dec4Cps(c) ELSE <<c>>
-DefaultDev(s) == <<cQ>> \o MapCat(ValueChar, s, 1) \o <<cQ>>
+                  [] c = cBS -> <<cBS, cBS>> [] OTHER -> IF IsCtl(c) THEN <<cBS, 117>> \o Hex4Cps(c) ELSE <<c>>
+DefaultToday(s) == <<cQ>> \o MapCat(ValueChar, s, 1) \o <<cQ>>
 
 \* ---- trigger predicates: exactly the strings each of today's printers gets wrong (checked in mode M) --------
 ReasonTrigger(s) == Has(s, cQ)
@@ -164,7 +164,6 @@ SingleLineTrigger(s) == Has(s, cBS) \/ Has(s, cCR)
 BlockTrigger(s) == HasTriple(s) \/ ~BlockSafe(s)
 DescTrigger(s, preferSingleLine) == IF preferSingleLine /\ ~Has(s, cLF) THEN SingleLineTrigger(s) ELSE BlockTrigger(s)
 SpecifiedByTrigger(s) == Has(s, cBS) \/ Has(s, cLF) \/ Has(s, cCR)
-DefaultTrigger(s) == \E i \in 1..Len(s) : IsCtl(s[i]) /\ s[i] > 9 /\ s[i] # cLF /\ s[i] # cCR
 Roundtrips(tok, s) == Denote(tok) = Good(s)
 
 \* ---- Describe ------------------------------------------------------------------------------------------
@@ -231,13 +230,13 @@ IsStringFact(e) == e.what \in {"desc", "specifiedBy"} \/ (e.what = "deprecated" 
 TodayToken(e, opts) ==
   CASE e.what = "desc" -> DescDev(e.cp, Repeat(Tabs(opts), Level(e)), opts.prefer_single_line_descriptions)
     [] e.what = "deprecated" -> ReasonDev(e.cp)
-    [] e.what = "default" -> DefaultDev(e.cp)
+    [] e.what = "default" -> DefaultToday(e.cp)
     [] e.what = "specifiedBy" -> SpecifiedByDev(e.cp)
 Broken(e, opts) == IsStringFact(e) /\ ~Roundtrips(TodayToken(e, opts), e.cp)
 DevOf(e, opts) ==
   CASE e.what = "desc" -> (IF opts.prefer_single_line_descriptions /\ ~Has(e.cp, cLF) THEN "DevDescSingleLineNotEscaped"
                            ELSE IF HasTriple(e.cp) THEN "DevDescBlockTripleQuote" ELSE "DevDescBlockWhitespaceLost")
     [] e.what = "deprecated" -> "DevReasonQuoteNotEscaped"
-    [] e.what = "default" -> "DevDefaultControlDecimal"
+    [] e.what = "default" -> "DevNone"          \* never broken: mode M InvDefaultToday
     [] e.what = "specifiedBy" -> "DevSpecifiedByNotEscaped"
 =============================================================================
